@@ -278,6 +278,7 @@ def display_image(im, scaling='auto', vert_axis='x', horiz_axis='y',
         RGB_names = np.all([letter in 'RGB' for letter in cols])
         if len(im[colour_axis]) == 1:
             im = im.squeeze(dim=colour_axis)
+            im.attrs['_single_channel'] = colour_axis
         elif len(im[colour_axis]) > 3:
             raise BadImage('Cannot output more than 3 colour channels')
         elif RGB_names:
